@@ -35,6 +35,9 @@ type nextPay struct {
 	lpCalls, recvs            int
 	decoded                   bool
 	decodeSlice               string
+	width, posAtDec, startAtDec *Lin   // lexer.width; pos and start when the rune was decoded
+	zeroW                     string // decision on "the decoded width is 0": "", "true", "false"
+	ret                       string // what the path returns: "rune" (the decoded rune), "eof", or a description
 	decFull, decDone          bool   // at the decode: a full rune was known to be buffered / the input was known to have ended
 	leftLoop                  string // "", "cond", "break", "return"
 	inLoop                    bool
@@ -116,7 +119,12 @@ func (c *Ctx) nextModel() (*nextModel, error) {
 			return tagV("inputsDone", ""), true
 		case "input":
 			return tagV("input", ""), true
-		case "width", "inputs", "lpUpd", "tokens":
+		case "width":
+			if p.width != nil {
+				return linV(p.width), true
+			}
+			return Value{}, false
+		case "inputs", "lpUpd", "tokens":
 			return Value{}, false
 		}
 		return Value{}, false
@@ -171,6 +179,11 @@ func (c *Ctx) nextModel() (*nextModel, error) {
 			}
 			return true
 		case "width":
+			if l, ok := v.asLin(); ok && op == token.ASSIGN {
+				p.width = l
+			} else {
+				p.width = nil
+			}
 			return true
 		}
 		p.problems = append(p.problems, c.pos(lhs.Pos())+": next() assigns lexer."+field(lhs))
@@ -187,6 +200,49 @@ func (c *Ctx) nextModel() (*nextModel, error) {
 	h.Decide = func(in *Interp, st *State, cond ast.Expr) tri { return triUnknown }
 	h.AssumeV = func(in *Interp, st *State, cond ast.Expr, cv Value, branch bool) bool {
 		p := pay(st)
+		if be, ok := stripParens(cond).(*ast.BinaryExpr); ok && p.decoded {
+			side := func(e ast.Expr) (*Lin, bool) {
+				for _, vs := range in.eval(st.clone(), e) {
+					return vs.v.asLin()
+				}
+				return nil, false
+			}
+			if x, ok1 := side(be.X); ok1 {
+				if y, ok2 := side(be.Y); ok2 {
+					d := x.sub(y) // w*k + c  (w >= 0)
+					if d.coef("w") != 0 && len(d.T) == 1 {
+						k, c0 := d.coef("w"), d.C
+						op := be.Op
+						if k < 0 {
+							k, c0 = -k, -c0
+							op = map[token.Token]token.Token{token.LSS: token.GTR, token.GTR: token.LSS, token.LEQ: token.GEQ, token.GEQ: token.LEQ, token.EQL: token.EQL, token.NEQ: token.NEQ}[op]
+						}
+						zero := "" // does the condition hold exactly when w == 0?
+						if k == 1 {
+							switch {
+							case op == token.EQL && c0 == 0, op == token.LEQ && c0 == 0, op == token.LSS && c0 == -1:
+								zero = "iff"
+							case op == token.NEQ && c0 == 0, op == token.GTR && c0 == 0, op == token.GEQ && c0 == -1:
+								zero = "iffnot"
+							}
+						}
+						want := ""
+						switch {
+						case zero == "iff" && branch, zero == "iffnot" && !branch:
+							want = "true"
+						case zero == "iff" && !branch, zero == "iffnot" && branch:
+							want = "false"
+						}
+						if want != "" {
+							if p.zeroW != "" && p.zeroW != want {
+								return false
+							}
+							p.zeroW = want
+						}
+					}
+				}
+			}
+		}
 		for _, vs := range []valState{{st, cv}} {
 			if vs.v.K != vTag {
 				break
@@ -265,7 +321,8 @@ func (c *Ctx) nextModel() (*nextModel, error) {
 			if len(call.Args) == 1 {
 				p.decodeSlice = c.sliceShape(call.Args[0])
 			}
-			return one(st, Value{K: vTuple, Tup: []Value{unknownV(), unknownV()}}), true
+			p.posAtDec, p.startAtDec = p.pos, p.start
+			return one(st, Value{K: vTuple, Tup: []Value{tagV("rune", ""), linV(linSym("w"))}}), true
 		}
 		return nil, false
 	}
@@ -289,7 +346,7 @@ func (c *Ctx) nextModel() (*nextModel, error) {
 			return false
 		}
 		sig := fn.Type().(*types.Signature)
-		return sig.Recv() != nil && isNamed(sig.Recv().Type(), bclPath, "lexer")
+		return sig.Recv() != nil && c.isLexerType(sig.Recv().Type())
 	}
 	_ = curFn
 	h.Loop = func(in *Interp, st *State, loop ast.Stmt, body func(*State) []*State) ([]*State, bool) {
@@ -349,10 +406,19 @@ func (c *Ctx) nextModel() (*nextModel, error) {
 		return out, true
 	}
 	in := newInterp(c, h)
-	st := &State{Env: map[types.Object]Value{}, P: &nextPay{pos: linSym("pos"), start: linSym("start"), shift: linSym("posShift"), length: linSym("len")}}
+	st := &State{Env: map[types.Object]Value{}, P: &nextPay{pos: linSym("pos"), start: linSym("start"), shift: linSym("posShift"), length: linSym("len"), width: linSym("width")}}
 	res := in.inlineBody(st, fd.Type, fd.Body, fd.Recv, nil)
 	for _, r := range res {
-		m.Final = append(m.Final, *r.st.P.(*nextPay))
+		fp := *r.st.P.(*nextPay)
+		switch {
+		case r.v.K == vTag && r.v.Tag == "rune":
+			fp.ret = "rune"
+		case r.v.K == vConst && r.v.C.Kind() == constant.Int && r.v.C.ExactString() == "-1":
+			fp.ret = "eof"
+		default:
+			fp.ret = r.v.String()
+		}
+		m.Final = append(m.Final, fp)
 	}
 	m.Undecided = in.Undecided
 	nextModelCache[c] = m
